@@ -136,23 +136,23 @@ theorem spliceSpec_length (b r : List UInt8) (skip take : Nat) (h : skip + take 
   simp [spliceSpec, List.length_append, List.length_take, List.length_drop]
   omega
 
-theorem implodeStep_noPanic_partial (i : Int) (h : i ≠ IMIN) : implodeStep i ≠ .error .panic := by
-  unfold implodeStep ineg
+theorem implodeStepAsFound_noPanic_partial (i : Int) (h : i ≠ IMIN) : implodeStepAsFound i ≠ .error .panic := by
+  unfold implodeStepAsFound ineg
   rw [if_neg h]
   simp only [bind, Except.bind, pure, Except.pure]
   split
   · simp
   · split <;> simp
 
-theorem implodeStepFixed_noPanic (i : Int) : implodeStepFixed i ≠ .error .panic := by
-  unfold implodeStepFixed
+theorem implodeStep_noPanic (i : Int) : implodeStep i ≠ .error .panic := by
+  unfold implodeStep
   simp only [pure, Except.pure]
   split
   · simp
   · split <;> simp
 
-theorem implodeStepFixed_agrees (i : Int) (h : i ≠ IMIN) : implodeStepFixed i = implodeStep i := by
-  unfold implodeStepFixed implodeStep ineg
+theorem implodeStep_agrees (i : Int) (h : i ≠ IMIN) : implodeStep i = implodeStepAsFound i := by
+  unfold implodeStep implodeStepAsFound ineg
   rw [if_neg h]
   simp only [bind, Except.bind, pure, Except.pure, ne_eq, h, not_false_eq_true, true_and]
 
@@ -170,9 +170,9 @@ theorem explodeItem_noPanic (x : Piece) (hb : ∀ b, x = .byte b → b ≤ 255) 
     simp [explodeItem, e]
   | err => simp [explodeItem]
 
-theorem implode_explode (x : Piece) (i : Int)
+theorem implode_explode_asFound (x : Piece) (i : Int)
     (hx : (∃ b, x = .byte b ∧ 1 ≤ b ∧ b ≤ 255) ∨ (∃ c, x = .char c ∧ 1 ≤ c ∧ isScalar ((c : Int)) = true))
-    (h : explodeItem x = .ok i) : implodeStep i = .ok x := by
+    (h : explodeItem x = .ok i) : implodeStepAsFound i = .ok x := by
   rcases hx with ⟨b, rfl, hb1, hb2⟩ | ⟨c, rfl, hc1, hc⟩
   · have e : ineg ((b : Int)) = .ok (-((b : Int))) := by
       unfold ineg IMIN; rw [if_neg (by omega)]
@@ -181,7 +181,7 @@ theorem implode_explode (x : Piece) (i : Int)
     subst h
     have e2 : ineg (-((b : Int))) = .ok ((b : Int)) := by
       unfold ineg IMIN; rw [if_neg (by omega)]; simp
-    unfold implodeStep
+    unfold implodeStepAsFound
     simp only [e2, bind, Except.bind, pure, Except.pure]
     rw [if_pos (by omega)]
     simp
@@ -194,11 +194,31 @@ theorem implode_explode (x : Piece) (i : Int)
     subst h
     have e2 : ineg ((c : Int)) = .ok (-((c : Int))) := by
       unfold ineg IMIN; rw [if_neg (by omega)]
-    unfold implodeStep
+    unfold implodeStepAsFound
     simp only [e2, bind, Except.bind, pure, Except.pure]
     rw [if_neg (by omega)]
     rw [if_pos hsc]
     simp
+
+theorem implode_explode (x : Piece) (i : Int)
+    (hx : (∃ b, x = .byte b ∧ 1 ≤ b ∧ b ≤ 255) ∨ (∃ c, x = .char c ∧ 1 ≤ c ∧ isScalar ((c : Int)) = true))
+    (h : explodeItem x = .ok i) : implodeStep i = .ok x := by
+  have hne : i ≠ IMIN := by
+    rcases hx with ⟨b, rfl, hb1, hb2⟩ | ⟨c, rfl, hc1, hc⟩
+    · have e : ineg ((b : Int)) = .ok (-((b : Int))) := by
+        unfold ineg IMIN; rw [if_neg (by omega)]
+      simp only [explodeItem, e] at h
+      injection h with h
+      subst h
+      unfold IMIN; omega
+    · simp only [explodeItem] at h
+      split at h
+      · injection h with h
+        subst h
+        unfold IMIN; omega
+      · cases h
+  rw [implodeStep_agrees i hne]
+  exact implode_explode_asFound x i hx h
 
 theorem sat_range (i : Int) : IMIN ≤ bigintToIntSaturated i ∧ bigintToIntSaturated i ≤ IMAX := by
   unfold bigintToIntSaturated IMIN IMAX
